@@ -2,7 +2,7 @@
    Property theorems only; proofs are in Proofs/. All statements hold for every choice of the
    oracles (decision ladder, recursive string analysis, redirect rules, path resolution). *)
 From Coq Require Import Permutation.
-From DippyV Require Import Base.Str Base.Verdict Base.Tree Model.Walker Proofs.VerdictP Proofs.WalkerP Proofs.C03P.
+From DippyV Require Import Base.Str Base.Verdict Base.Tree Model.Walker Model.Cover Proofs.VerdictP Proofs.WalkerP Proofs.C03P.
 
 (* the verdicts form a bounded join-semilattice and _combine is its iterated join *)
 Theorem C03_lattice :
